@@ -628,6 +628,13 @@ def run(ctx):
             raise tlc.TLCError(f"vacuity: actions never taken in the model run: {zero}")
     if not r.ok:
         raise tlc.TLCError(f"WaveformExtract model of the current tree violates {r.invariant_violated}:\n{r.out[-2000:]}")
+    # the chunk / snippet arithmetic for unbounded lengths, chunk sizes and window geometries (Apalache, one-state theorem)
+    from vkit import apalache
+    if not apalache.check("apalache/WaveSnipInd.tla", "Init", "Theorem", 0):
+        raise tlc.TLCError("spec/apalache/WaveSnipInd.tla: OneChunk / WithinSnippet do not hold for unbounded parameters")
+    ctx.cov["unbounded_theorem"] = {"tool": "apalache-mc 0.58", "statement": "for all NS, chunk >= trough_offset, 0 <= trough < length and "
+                                    "every valid spike sample: exactly one chunk holds it and its window lies inside that chunk's snippet "
+                                    "at the local position the code computes"}
     scs = scenarios(ctx)
     rng = np.random.default_rng(ctx.seed)
     recs, trains, masters, traces = {}, {}, {}, []
